@@ -471,6 +471,13 @@ let run_cli (c : case) =
    | M.UB _ -> pr "OUT !ub\n"
    | M.OutOfFuel -> pr "OUT !fuel\n"
    | M.Err _ -> pr "OUT !err\n");
+  (* the program on arbitrary bytes (Model/CliRaw.v): lines() errors on a line that is not UTF-8 *)
+  (match M.cli_main_raw fl (o c.pf) (o c.pp) (nlist c.stdin) files with
+   | M.Ok (out, st) -> pr "ROUT %s\n" (hex_of out); pr "REXIT %d\n" (int_of_n st)
+   | M.Panic _ -> pr "ROUT !panic\nREXIT 101\n"
+   | M.UB _ -> pr "ROUT !ub\n"
+   | M.OutOfFuel -> pr "ROUT !fuel\n"
+   | M.Err _ -> pr "ROUT !err\n");
   (* the property text: per input line, all occurrences of the patterns (extracted Spec) *)
   let pats = M.cli_patterns (o c.pf) (o c.pp) in
   (match M.spec_build_error pats with
